@@ -168,6 +168,13 @@ static void check_same_multiset(const char *what)
     if (memcmp(x, y, n * es) != 0) VIOL("not_a_permutation", "%s (%s, %zu elements of %zu bytes): the elements afterwards are not byte-for-byte the elements before (lost, duplicated or torn)", what, algoname, n, es);
 }
 
+/* what an optimised caller may assume about the calls (attributes on the prototypes): ncmp is a file-scope static written by
+ * the comparison callback; these small functions without setjmp read it right after the library call returns */
+static uint64_t sort_plain(void *a, size_t cnt, size_t sz, cstl_swap_func_t *sw, void *tmp, cstl_sort_algorithm_t al)
+{ ncmp = 0; g_inlib = 1; cstl_raw_array_sort(a, cnt, sz, cmp_cb, NULL, sw, tmp, al); g_inlib = 0; return ncmp; }
+static uint64_t search_plain(int find, const void *a, size_t cnt, size_t sz, const void *pr, ssize_t *res)
+{ ncmp = 0; g_inlib = 1; *res = find ? cstl_raw_array_find(a, cnt, sz, pr, cmp_cb, (void *)pr) : cstl_raw_array_search(a, cnt, sz, pr, cmp_cb, (void *)pr); g_inlib = 0; return ncmp; }
+
 static void z_exec(const plan_t *p)
 {
     struct simheap_cfg hc = { RP_MOVE, 0, (unsigned char)p->cfg[CF_JUNK] };
@@ -251,6 +258,11 @@ static void z_exec(const plan_t *p)
                 where_on = 1;
                 if (o->a[1] & 2) { passed_tmp = NULL; PROBE("custom_swap_without_scratch"); }       /* legal: this swap function needs none */
             }
+            if (k % 4 == 1) {
+                uint64_t seen = sort_plain(arr, n, es, custom_swap ? swap_cb : cstl_swap, passed_tmp, (cstl_sort_algorithm_t)algos[ai]);
+                if (n >= 2 && seen < n - 1) VIOL("callback_effects_invisible", "sort of %zu elements: the caller's own counter, written by the comparison function and read right after the call in an optimised function, says %llu", n, (unsigned long long)seen);
+                PROBE("callback_counted_in_plain_function");
+            } else
             TRY(cstl_raw_array_sort(arr, n, es, cmp_cb, NULL, custom_swap ? swap_cb : cstl_swap, passed_tmp, (cstl_sort_algorithm_t)algos[ai]));
             if (g_aborted) VIOL(g_aborted == 2 ? "assert" : "abort", "sort aborted");
             where_on = 0;
@@ -364,6 +376,10 @@ static void z_exec(const plan_t *p)
                 PROBE("probe_is_an_element_of_the_array"); if (at != first) PROBE("probe_is_a_later_duplicate");
                 if (o->kind == Z_SEARCH) TRY(sres = cstl_raw_array_search(arr, n, es, arr + at * es, cmp_cb, NULL));
                 else TRY(sres = cstl_raw_array_find(arr, n, es, arr + at * es, cmp_cb, NULL));
+            } else
+            if (k % 4 == 1) {
+                uint64_t seen = search_plain(o->kind != Z_SEARCH, arr, n, es, probe, &sres);
+                if (n >= 1 && seen < 1) VIOL("callback_effects_invisible", "%s among %zu elements: the caller's own counter, written by the comparison function and read right after the call in an optimised function, says %llu", z_opname(o->kind), n, (unsigned long long)seen);
             } else
             if (o->kind == Z_SEARCH) TRY(sres = cstl_raw_array_search(arr, n, es, probe, cmp_cb, probe));
             else TRY(sres = cstl_raw_array_find(arr, n, es, probe, cmp_cb, probe));
